@@ -105,17 +105,17 @@ theorem objIn_of_small (h : HitObject Float Float32) (s d : Int) (hs : s.natAbs 
 
 /-! ### non-vacuity: a concrete state with integer times (doubles), unsorted objects, a break, control points, a pending group -/
 
-def fSmp : HitSampleInfo := HitSampleInfo.new (.default .normal) none 0 0
-def fCircle (t : Int) : HitObject Float Float32 :=
-  { startTime := Float.ofInt t, kind := .circle { pos := { x := 0, y := 0 }, newCombo := false, comboOffset := 0 }, samples := [fSmp] }
-def fSpinner (t d : Int) : HitObject Float Float32 :=
+def sfSmp : HitSampleInfo := HitSampleInfo.new (.default .normal) none 0 0
+def sfCircle (t : Int) : HitObject Float Float32 :=
+  { startTime := Float.ofInt t, kind := .circle { pos := { x := 0, y := 0 }, newCombo := false, comboOffset := 0 }, samples := [sfSmp] }
+def sfSpinner (t d : Int) : HitObject Float Float32 :=
   { startTime := Float.ofInt t, kind := .spinner { pos := { x := 256, y := 192 }, duration := Float.ofInt d, newCombo := false },
-    samples := [fSmp] }
-def fHold (t d : Int) : HitObject Float Float32 :=
+    samples := [sfSmp] }
+def sfHold (t d : Int) : HitObject Float Float32 :=
   { startTime := Float.ofInt t, kind := .hold { posX := 0, duration := Float.ofInt d }, samples := [] }
 
-def fState : HitObjectsState Float Float32 :=
-  { core := { hitObjects := [fCircle 500, fSpinner 100 50, fHold 300 10, fCircle 260], lastObject := some 1 },
+def sfState : HitObjectsState Float Float32 :=
+  { core := { hitObjects := [sfCircle 500, sfSpinner 100 50, sfHold 300 10, sfCircle 260], lastObject := some 1 },
     events := { backgroundFile := [], breaks := [{ startTime := Float.ofInt 200, endTime := Float.ofInt 250 }] },
     timingPoints :=
       { general := GeneralState.default, pendingTime := Float.ofInt 400,
@@ -124,49 +124,49 @@ def fState : HitObjectsState Float Float32 :=
                            samplePoints := [⟨Float.ofInt 90, .drum, 60, 0⟩] } },
     difficulty := DifficultyState.create }
 
-theorem fState_in : StateIn IntTime fState := by
+theorem sfState_in : StateIn IntTime sfState := by
   refine ⟨?_, ?_, ⟨?_, ?_, ?_, ?_⟩, ⟨?_, ?_, ?_, ?_⟩⟩
   · intro h hh
-    simp only [fState, List.mem_cons, List.mem_nil_iff, or_false] at hh
+    simp only [sfState, List.mem_cons, List.mem_nil_iff, or_false] at hh
     rcases hh with rfl | rfl | rfl | rfl
     · exact objIn_of_small _ 500 0 (by decide) (by decide) rfl trivial
     · exact objIn_of_small _ 100 50 (by decide) (by decide) rfl rfl
     · exact objIn_of_small _ 300 10 (by decide) (by decide) rfl rfl
     · exact objIn_of_small _ 260 0 (by decide) (by decide) rfl trivial
   · intro b hb
-    simp only [fState, List.mem_singleton] at hb
+    simp only [sfState, List.mem_singleton] at hb
     subst hb
     exact intTime_ofInt 250 (by decide)
   · intro p hp
-    simp only [fState, List.mem_singleton] at hp
+    simp only [sfState, List.mem_singleton] at hp
     subst hp
     exact intTime_ofInt 0 (by decide)
   · intro p hp; cases hp
   · intro p hp; cases hp
   · intro p hp
-    simp only [fState, List.mem_singleton] at hp
+    simp only [sfState, List.mem_singleton] at hp
     subst hp
     exact intTime_ofInt 90 (by decide)
   · intro p hp; cases hp
   · intro p hp; cases hp
   · intro p hp; cases hp
   · intro p hp
-    simp only [fState, Option.some.injEq] at hp
+    simp only [sfState, Option.some.injEq] at hp
     subst hp
     exact intTime_ofInt 400 (by decide)
 
-/-- `shift_invariant_float_int_finish` applied: one second later (all hypotheses hold of `fState`). -/
-example : (shiftState (Float.ofInt 1000) fState).finish = (fState.finish).map (shiftHitObjects (Float.ofInt 1000)) :=
-  shift_invariant_float_int_finish 1000 (by decide) fState fState_in (by
+/-- `shift_invariant_float_int_finish` applied: one second later (all hypotheses hold of `sfState`). -/
+example : (shiftState (Float.ofInt 1000) sfState).finish = (sfState.finish).map (shiftHitObjects (Float.ofInt 1000)) :=
+  shift_invariant_float_int_finish 1000 (by decide) sfState sfState_in (by
     intro o ho
-    simp only [fState, List.mem_cons, List.mem_nil_iff, or_false] at ho
+    simp only [sfState, List.mem_cons, List.mem_nil_iff, or_false] at ho
     rcases ho with rfl | rfl | rfl | rfl <;> rfl)
 
 /-- what the finaliser loop does on it, evaluated by the kernel on IEEE doubles (objects listed in start-time order, the
 pending sample point at 400 flushed): the circle after the break is forced to a new combo, the spinner sample is resolved at
 `100 + 50 + 5` against the point at 90 (volume 60), the last circle's at 505 against the point at 400 (volume 30). -/
-example : ((finalizeObjects GameMode.osu (1.4 : Float) fState.timingPoints.finish.2
-      (postProcessBreaks fState.events.breaks [fSpinner 100 50, fCircle 260, fHold 300 10, fCircle 500] 0)
+example : ((finalizeObjects GameMode.osu (1.4 : Float) sfState.timingPoints.finish.2
+      (postProcessBreaks sfState.events.breaks [sfSpinner 100 50, sfCircle 260, sfHold 300 10, sfCircle 500] 0)
       emptyBuffers).toOption.map (fun hs => hs.map (fun h => (kindNewCombo h.kind, h.samples.map (·.volume))))) =
     some [(false, [60]), (true, [60]), (false, []), (false, [30])] := by decide +kernel
 
@@ -178,29 +178,29 @@ its end-time sample lookup happens at `1001 + 5 = 1006` and finds the sample poi
 earlier: `fl(0 + (1 − 2^-45)) = 1 − 2^-45` exactly, the lookup happens at `6 − 2^-45 < 6` and finds the point before the one at
 `6` (volume 100). Every stored time is an integer below 2000 and the shift is `−1000`. -/
 
-def d45 : Float := Float.ofBits 0x3FEFFFFFFFFFFF00  -- 1 - 2^-45
+def sxDur : Float := Float.ofBits 0x3FEFFFFFFFFFFF00  -- 1 - 2^-45
 
-def pathX : SliderPathData Float Float32 :=
+def sxPath : SliderPathData Float Float32 :=
   { mode := .osu
     controlPoints := [{ pos := { x := 0, y := 0 }, pathType := some PathType.linear }, { pos := { x := 100, y := 0 }, pathType := none }]
-    expectedDist := some d45 }
+    expectedDist := some sxDur }
 
-def smp : HitSampleInfo := HitSampleInfo.new (.default .normal) none 0 0
+def sxSmp : HitSampleInfo := HitSampleInfo.new (.default .normal) none 0 0
 
-def sliderKindX : HitObjectSlider Float Float32 :=
+def sxKind : HitObjectSlider Float Float32 :=
   { pos := { x := 100, y := 100 }
     newCombo := false
     comboOffset := 0
-    path := pathX
-    nodeSamples := [[smp], [smp]]
+    path := sxPath
+    nodeSamples := [[sxSmp], [sxSmp]]
     repeatCount := 0
     velocity := 1 }
 
-def sliderX : HitObject Float Float32 :=
-  { startTime := Float.ofInt 1000, kind := .slider sliderKindX, samples := [smp] }
+def sxSlider : HitObject Float Float32 :=
+  { startTime := Float.ofInt 1000, kind := .slider sxKind, samples := [sxSmp] }
 
-def stX : HitObjectsState Float Float32 :=
-  { core := { hitObjects := [sliderX] },
+def sxState : HitObjectsState Float Float32 :=
+  { core := { hitObjects := [sxSlider] },
     events := { backgroundFile := [], breaks := [] },
     timingPoints :=
       { general := GeneralState.default, pendingTime := Float.ofInt 1006, pending := Pending.empty,
@@ -209,28 +209,28 @@ def stX : HitObjectsState Float Float32 :=
     difficulty := { (DifficultyState.create : DifficultyState Float Float32) with difficulty := { (Difficulty.default : Difficulty Float Float32) with sliderMultiplier := 1 } } }
 
 /-- what is observed: per object its start-time bits, the volumes of its samples and of its node samples. -/
-def obs (ho : HitObjects Float Float32) : List (UInt64 × List Int × List (List Int)) :=
+def sxObs (ho : HitObjects Float Float32) : List (UInt64 × List Int × List (List Int)) :=
   ho.hitObjects.map fun h => (h.startTime.toBits, h.samples.map (·.volume),
     match h.kind with
     | .slider s => s.nodeSamples.map (fun ns => ns.map (·.volume))
     | _ => [])
 
 
-theorem stX_in : StateIn IntTime stX := by
+theorem sxState_in : StateIn IntTime sxState := by
   refine ⟨?_, ?_, ⟨?_, ?_, ?_, ?_⟩, pendingIn_empty⟩
   · intro h hh
-    simp only [stX, List.mem_singleton] at hh
+    simp only [sxState, List.mem_singleton] at hh
     subst hh
     exact ⟨intTime_ofInt 1000 (by decide), trivial⟩
   · intro b hb; cases hb
   · intro p hp
-    simp only [stX, List.mem_singleton] at hp
+    simp only [sxState, List.mem_singleton] at hp
     subst hp
     exact intTime_ofInt 0 (by decide)
   · intro p hp; cases hp
   · intro p hp; cases hp
   · intro p hp
-    simp only [stX, List.mem_cons, List.mem_nil_iff, or_false] at hp
+    simp only [sxState, List.mem_cons, List.mem_nil_iff, or_false] at hp
     rcases hp with rfl | rfl
     · exact intTime_ofInt 0 (by decide)
     · exact intTime_ofInt 1006 (by decide)
@@ -238,8 +238,8 @@ theorem stX_in : StateIn IntTime stX := by
 /-- the two sides of `finish_shift` on the witness, evaluated by the kernel: the finaliser on the shifted state gives the slider
 (and its end node) volume 100, the shift of the finalised state has volume 30. -/
 theorem slider_samples_shift_witness :
-    ((shiftState (Float.ofInt (-1000)) stX).finish).toOption.map obs = some [(0, [100], [[100], [100]])] ∧
-    ((stX.finish).map (shiftHitObjects (Float.ofInt (-1000)))).toOption.map obs = some [(0, [30], [[100], [30]])] := by
+    ((shiftState (Float.ofInt (-1000)) sxState).finish).toOption.map sxObs = some [(0, [100], [[100], [100]])] ∧
+    ((sxState.finish).map (shiftHitObjects (Float.ofInt (-1000)))).toOption.map sxObs = some [(0, [30], [[100], [30]])] := by
   constructor <;> decide +kernel
 
 /-- **finding**: `finish_shift` restricted to integer times is NOT a theorem of IEEE doubles once a slider is present — the
@@ -249,13 +249,13 @@ theorem slider_samples_shift_false :
     ¬ (∀ st : HitObjectsState Float Float32, StateIn IntTime st →
         (shiftState (Float.ofInt (-1000)) st).finish = (st.finish).map (shiftHitObjects (Float.ofInt (-1000)))) := by
   intro h
-  have e := congrArg (fun r => r.toOption.map obs) (h stX stX_in)
+  have e := congrArg (fun r => r.toOption.map sxObs) (h sxState sxState_in)
   simp only [slider_samples_shift_witness.1, slider_samples_shift_witness.2] at e
   revert e
   decide
 
 /-- the law behind it: `(a + k) + d = (a + d) + k` fails for integers `a`, `k` and a non-integer `d`. -/
 theorem add_right_comm_nonint_false :
-    (Float.ofInt 1000 + Float.ofInt (-1000)) + d45 ≠ (Float.ofInt 1000 + d45) + Float.ofInt (-1000) := by decide +kernel
+    (Float.ofInt 1000 + Float.ofInt (-1000)) + sxDur ≠ (Float.ofInt 1000 + sxDur) + Float.ofInt (-1000) := by decide +kernel
 
 end Rosu.C15
